@@ -126,6 +126,32 @@ def r1_qpack(repo, chk):
     dec = [c for c in ini.calls(name="pylsqpack.Decoder")]
     ok = len(dec) == 1 and [norm(a) for a in dec[0].args] == ["self._max_table_capacity", "self._blocked_streams"]
     chk.ob("R1", "the decoder is created with the limits this endpoint advertises", ok, "", ini.loc(ini.node))
+    # a header block is registered with the encoder under the stream it is sent on (the peer's decoder acknowledges
+    # that stream id; the encoder must find the block there)
+    m_ = repo.mod("h3.connection")
+    n_enc = 0
+    for q in sorted(m_.functions):
+        if not q.startswith("H3Connection.") or ".<locals>." in q:
+            continue
+        f_ = Fn(repo, "h3.connection:" + q)
+        for c in f_.calls(name="self._encode_headers"):
+            n_enc += 1
+            sid = norm(c.args[0]) if c.args else None
+            outer = None
+            p_ = getattr(c, "_parent", None)
+            while p_ is not None and not isinstance(p_, ast.stmt):
+                if isinstance(p_, ast.Call) and call_name(p_) == "self._quic.send_stream_data":
+                    outer = p_
+                p_ = getattr(p_, "_parent", None)
+            if outer is None:
+                # encoded into a local first: the function sends on exactly one request stream
+                tgt = {norm(x.args[0]) for x in f_.calls(name="self._quic.send_stream_data") if x.args and norm(x.args[0]) in {a.arg for a in f_.node.args.args}}
+                okc = tgt == {sid}
+            else:
+                okc = bool(outer.args) and norm(outer.args[0]) == sid
+            chk.ob("R1", f"{q.split('.')[-1]}: the header block is encoded for the stream it is sent on", okc, f"_encode_headers({sid}, ...): the peer acknowledges the block under the stream that carried it; the encoder finds nothing there and fails the connection with QPACK_DECODER_STREAM_ERROR - only once a block references the dynamic table", f_.loc(c))
+    if n_enc < 2:
+        raise AnalysisError("H3Connection: _encode_headers call sites not found")
     ls = Fn(repo, H3 + "_get_local_settings")
     txt = " ".join(norm(st) for st in ls.stmts())
     ok = "Setting.QPACK_MAX_TABLE_CAPACITY: self._max_table_capacity" in txt and "Setting.QPACK_BLOCKED_STREAMS: self._blocked_streams" in txt
@@ -265,6 +291,9 @@ def r3(repo, chk):
         cons = [(st, v) for st, t, v in fn.assigns(chain="consumed")]
         ok = all(norm(v) in ("0", "buf.tell()") for st, v in cons) and any(norm(v) == "0" and fn.before(st, loop) for st, v in cons)
         chk.ob("R3", f"{name}: `consumed` starts at 0 and is only ever set to buf.tell()", ok, f"{[norm(v) for st, v in cons]}", fn.loc(fn.node))
+        # the parse offset is an offset into what the Buffer was built from: nothing else is sliced with it
+        wrong = [norm(n) for n in fn.nodes(ast.Subscript) if isinstance(n.slice, ast.Slice) and any(isinstance(x, ast.Name) and x.id == "consumed" for b in (n.slice.lower, n.slice.upper) if b is not None for x in ast.walk(b)) and norm(n.value) != "stream.buffer"]
+        chk.ob("R3", f"{name}: the parse offset only ever slices the buffer it was measured in", not wrong, f"{wrong}: `consumed` counts bytes of the accumulated stream buffer; applied to the current delivery it drops (or duplicates) as many payload bytes as were left over from earlier deliveries - only when a delivery boundary falls inside a preamble", fn.loc(fn.node))
         app = [st for st, t, v in fn.assigns(chain="stream.buffer") if isinstance(st, ast.AugAssign) and norm(v) == "data"]
         ok = len(app) == 1 and fn.before(app[0], bufs[0]) and not fn.lexical_guards(app[0], expand=False)
         chk.ob("R3", f"{name}: new bytes are appended to the stream's buffer before parsing", ok, "", fn.loc(fn.node))
